@@ -23,6 +23,7 @@ RULE = ('cases = random G-MPS programs (Conv2d incl. depthwise, Linear, Conv-BN,
         'spikes).  Non-trivial: at least one decision has >= 2 candidates and the selected '
         'assignment is not the initial one (highest precision everywhere); distinct = hash of '
         '(program, tuples, coefficients).')
+RULE += ('  Round 2/3: summary() is read before the first forward, after it and after export(); Conv2d with reflect / replicate / circular padding; Conv1d networks (a fifth of the programs); a convolution re-used on a tensor and on its pooled version.')
 ASSUMPTIONS = [
     'both sides run the same PyTorch kernels on the same shapes with one thread (bit-exact '
     'comparison is meaningful); 0*q_i + 1*q_j is exact for finite q (finiteness is asserted)',
